@@ -191,3 +191,46 @@ func H_C15_odt_table_markdown() {
 	}
 	vReach("end")
 }
+
+// H_C15_odt_row_spans: a cell spanning several rows (number-rows-spanned) shifts nothing: every real cell of the rows
+// below still lands in its own grid column of the Markdown table, wherever the spanning cell sits - first, middle or
+// last column.
+//
+//symgo:harness prop=C15 kernel=K1-odt-row-spans
+//symgo:desc harness-built tableXML (XML unmarshalling outside the claim), 3 columns x 3..4 rows; one cell in row 1 at column k in 0..2 (enumerated) has number-rows-spanned = a symbolic digit 2..3; the rows it covers contain only their two real cells (covered cells are not part of the parsed XML); all texts distinct: ParseTable + ToMarkdown is one pipe table read back by the reference GFM reader with 3 columns in every row, each real cell's text in its grid column and the covered positions blank
+func H_C15_odt_row_spans() {
+	rows := vAnyIntIn(3, 4)
+	k := vAnyIntIn(0, 2)
+	d := vAnyByteOf("23")
+	span := int(d - '0')
+	var tbl tableXML
+	want := make([][3]string, rows)
+	for i := 0; i < rows; i++ {
+		var row tableRowXML
+		for c := 0; c < 3; c++ {
+			if c == k && i >= 1 && i < span {
+				continue // covered by the spanning cell above
+			}
+			txt := "r" + string(rune('0'+i)) + "c" + string(rune('0'+c))
+			cell := tableCellXML{Paragraphs: []paragraphXML{{Text: txt}}}
+			if c == k && i == 0 {
+				cell.NumberRowsSpanned = string([]byte{d})
+			}
+			row.Cells = append(row.Cells, cell)
+			want[i][c] = txt
+		}
+		tbl.Rows = append(tbl.Rows, row)
+	}
+	pt := NewTableParser(nil).ParseTable(tbl)
+	md := pt.ToMarkdown()
+	got, ok := vGFMParse(md)
+	vAssert("is-one-pipe-table", ok)
+	vAssert("row-count", len(got) == rows)
+	for i := 0; i < rows; i++ {
+		vAssert("three-columns", len(got[i]) == 3)
+		for c := 0; c < 3; c++ {
+			vAssert("cell-text-in-its-grid-column", got[i][c] == want[i][c])
+		}
+	}
+	vReach("end")
+}
